@@ -162,7 +162,7 @@ func getSession() *session {
 			s.why = "cannot create lock file: " + err.Error()
 			return
 		}
-		deadline := time.Now().Add(10 * time.Minute)
+		deadline := time.Now().Add(4 * time.Minute) // well inside the unit's budget: a busy path is "unavailable", not a timeout
 		for {
 			if err = syscall.Flock(int(s.lock.Fd()), syscall.LOCK_EX|syscall.LOCK_NB); err == nil {
 				break
